@@ -195,3 +195,17 @@ def finish(ctx, level, coverage, technique_note=""):
           (ctx.pid, ctx.tier, " ".join("%s=%s" % kv for kv in sorted(ctx.stats.items())[:8]),
            time.time() - ctx.t0, ev["violations"], len(known_hit), cov["exhaustive"]))
     return rc
+
+
+def huge_lengths(ctx, whats, jobs=4):
+    """thorough tier only: one call with a length of 2^32 + 40 per listed function (4.3 GB of real memory per process)"""
+    import build
+    lib = build.build_lib("asm", opt="-O2")
+    exe = build.build_prog("huge", ["harness/huge.c", "harness/sysrand.c", "ref/ref.c"], lib, opt="-O2")
+    def one(w):
+        if ctx.remaining() < 420:
+            ctx.cap("huge-length run %s skipped: less than 7 minutes left before the deadline" % w)
+            return
+        run_harness(ctx, exe, [w], label="asm", timeout=max(60, ctx.remaining()))
+    parallel(one, whats, jobs=jobs)
+    ctx.assumptions.append("lengths at and beyond 2^32: one call of 2^32 + 40 bytes per function against an independent streaming 64-bit reference (itself cross-checked against ref.c); x86-64 back end only")
